@@ -38,12 +38,12 @@ Specification: spec/P2Bin.tla (on top of spec/CodeFile.tla)
     bytes may be hidden by another selected record's bytes); -s; overlap warning for pairs of equal granularity as in
     the uniform case.  OPEN (drift only): where a record of a smaller granularity stands in the image relative to the
     larger ones, and the warning for pairs of different granularity.
-    TLC: P2Bin_MC_mixed / _mixedpost (ConformsMixed, WindowStableMixed, MeasureSoundMixed; also added to _select):
+    TLC: P2Bin_MC_mixed / _mixedpost (ConformsMixed, WindowStableMixed, MeasureSoundMixed; thorough: _mixed2, _mixed3, _select3):
     <= 2 records of 4 units at 0, 1, 3, 6 in units of 1 / 2 / 4 bytes x 7 windows (start / end strictly inside a record
     of either unit, at its edges, outside, automatic, half-automatic) x ALL / ODD / WORD1; x two files with (offset) x
     -S none / L2 / B3 x -s x -e x -l.  P2Bin_MC_probe_skip_maxgran: the PROBE `source skip counted in MaxGran` (not in
     the pinned tree) - TLC must find ConformsMixed violated while Conforms holds (the claim is not vacuous).
-    Replay: P2Bin_CoverMixed / CoverMixedPost exhaustively (quick: 5121 cases, 2494 of them DefiniteMixed), a third of
+    Replay: P2Bin_CoverMixed / CoverMixedPost exhaustively (quick: 2823 cases, 1480 of them DefiniteMixed), a third of
     the simulated cases in MIXED MODE (CODE records of any granularity, long and short headers, all options), and 40
     (thorough 400) PROGRAMS FOR SEVERAL PROCESSORS (z80 / 8051 / 6502 bytes, 32015 / 16c84 words, 320C30 longwords in
     one CODE segment; a quarter as two code files with (offset)) assembled by the real asl, tokenised by the independent
@@ -98,6 +98,13 @@ MUTATIONS tried (scratch copies, VERIF_REPO; list with sed expressions in selfte
     before (an AVR/PDK short-header CODE record after a DATA record is read with granularity 1): 838 violations in the
     quick tier; `case 0x1b:` (PDK14) deleted from Granularity(): 254 violations.  Also detected (and already before, by
     a short-header record first in a file): `*Segment = SegCode;` of that branch deleted.
+  detected after the mixed-granularity dimension was added (none before; each 0 violations in the uniform cases):
+    source skip at the window start `(ErgStart - InpStart) * MaxGran` (248 violations in the quick tier: a record of the
+    smaller unit shows bytes of clipped-away addresses and of the next record header); ErgStop from `InpLen / MaxGran`
+    (183: the smaller-unit record loses its tail); lane test on `ErgStart * MaxGran + Addr` (200: wrong lane bytes of
+    the smaller-unit record); MaxGran = granularity of the LAST selected record (`Gran != MaxGran`, 670: length).
+  drift only, by design (exit 0, 9+ SPEC-DRIFT lines): target position taken from `ErgStart * MaxGran` - it moves a
+    smaller-unit record inside the image, the one thing AllowedMixed leaves open.
   equivalent (exit 0, rightly): `+1` in LaneBytesBelow (cancels in the difference).
   reported as KNOWN-FINDING only: removing the repaired secondary overlap test from the fixed tree (it IS the known
     defect; becomes a VIOLATION when known_findings/C05.json flips that entry to "fixed").
